@@ -25,8 +25,8 @@ from .helpers import decimal_validator, qname_validator, byte_validator, \
     unsigned_short_validator, unsigned_int_validator, unsigned_long_validator, \
     negative_int_validator, positive_int_validator, non_positive_int_validator, \
     non_negative_int_validator, hex_binary_validator, base64_binary_validator, \
-    error_type_validator, boolean_to_python, python_to_boolean, python_to_float, \
-    python_to_int
+    error_type_validator, str_to_int, str_to_decimal, boolean_to_python, \
+    python_to_boolean, python_to_float, python_to_int
 
 #
 # Admitted facets sets for XSD atomic types
@@ -89,7 +89,7 @@ XSD_COMMON_BUILTIN_TYPES: tuple[dict[str, Any], ...] = (
         'datatype': datatypes.DecimalProxy,
         'python_type': (Decimal, int, float),
         'admitted_facets': DECIMAL_FACETS,
-        'to_python': datatypes.DecimalProxy,
+        'to_python': str_to_decimal,
         'facets': [decimal_validator, COLLAPSE_WHITE_SPACE_ELEMENT],
     },  # decimal number
 
@@ -252,6 +252,7 @@ XSD_COMMON_BUILTIN_TYPES: tuple[dict[str, Any], ...] = (
         'name': nm.XSD_INTEGER,
         'datatype': datatypes.Integer,
         'python_type': int,
+        'to_python': str_to_int,
         'from_python': python_to_int,
         'base_type': nm.XSD_DECIMAL
     },  # any integer value
@@ -259,6 +260,7 @@ XSD_COMMON_BUILTIN_TYPES: tuple[dict[str, Any], ...] = (
         'name': nm.XSD_LONG,
         'datatype': datatypes.Long,
         'python_type': int,
+        'to_python': str_to_int,
         'from_python': python_to_int,
         'base_type': nm.XSD_INTEGER,
         'facets': [long_validator,
@@ -269,6 +271,7 @@ XSD_COMMON_BUILTIN_TYPES: tuple[dict[str, Any], ...] = (
         'name': nm.XSD_INT,
         'datatype': datatypes.Int,
         'python_type': int,
+        'to_python': str_to_int,
         'from_python': python_to_int,
         'base_type': nm.XSD_LONG,
         'facets': [int_validator,
@@ -279,6 +282,7 @@ XSD_COMMON_BUILTIN_TYPES: tuple[dict[str, Any], ...] = (
         'name': nm.XSD_SHORT,
         'datatype': datatypes.Short,
         'python_type': int,
+        'to_python': str_to_int,
         'from_python': python_to_int,
         'base_type': nm.XSD_INT,
         'facets': [short_validator,
@@ -289,6 +293,7 @@ XSD_COMMON_BUILTIN_TYPES: tuple[dict[str, Any], ...] = (
         'name': nm.XSD_BYTE,
         'datatype': datatypes.Byte,
         'python_type': int,
+        'to_python': str_to_int,
         'from_python': python_to_int,
         'base_type': nm.XSD_SHORT,
         'facets': [byte_validator,
@@ -299,6 +304,7 @@ XSD_COMMON_BUILTIN_TYPES: tuple[dict[str, Any], ...] = (
         'name': nm.XSD_NON_NEGATIVE_INTEGER,
         'datatype': datatypes.NonNegativeInteger,
         'python_type': int,
+        'to_python': str_to_int,
         'from_python': python_to_int,
         'base_type': nm.XSD_INTEGER,
         'facets': [non_negative_int_validator, Element(nm.XSD_MIN_INCLUSIVE, value='0')]
@@ -307,6 +313,7 @@ XSD_COMMON_BUILTIN_TYPES: tuple[dict[str, Any], ...] = (
         'name': nm.XSD_POSITIVE_INTEGER,
         'datatype': datatypes.PositiveInteger,
         'python_type': int,
+        'to_python': str_to_int,
         'from_python': python_to_int,
         'base_type': nm.XSD_NON_NEGATIVE_INTEGER,
         'facets': [positive_int_validator, Element(nm.XSD_MIN_INCLUSIVE, value='1')]
@@ -315,6 +322,7 @@ XSD_COMMON_BUILTIN_TYPES: tuple[dict[str, Any], ...] = (
         'name': nm.XSD_UNSIGNED_LONG,
         'datatype': datatypes.UnsignedLong,
         'python_type': int,
+        'to_python': str_to_int,
         'from_python': python_to_int,
         'base_type': nm.XSD_NON_NEGATIVE_INTEGER,
         'facets': [unsigned_long_validator,
@@ -324,6 +332,7 @@ XSD_COMMON_BUILTIN_TYPES: tuple[dict[str, Any], ...] = (
         'name': nm.XSD_UNSIGNED_INT,
         'datatype': datatypes.UnsignedInt,
         'python_type': int,
+        'to_python': str_to_int,
         'from_python': python_to_int,
         'base_type': nm.XSD_UNSIGNED_LONG,
         'facets': [unsigned_int_validator, Element(nm.XSD_MAX_INCLUSIVE, value='4294967295')]
@@ -332,6 +341,7 @@ XSD_COMMON_BUILTIN_TYPES: tuple[dict[str, Any], ...] = (
         'name': nm.XSD_UNSIGNED_SHORT,
         'datatype': datatypes.UnsignedShort,
         'python_type': int,
+        'to_python': str_to_int,
         'from_python': python_to_int,
         'base_type': nm.XSD_UNSIGNED_INT,
         'facets': [unsigned_short_validator, Element(nm.XSD_MAX_INCLUSIVE, value='65535')]
@@ -340,6 +350,7 @@ XSD_COMMON_BUILTIN_TYPES: tuple[dict[str, Any], ...] = (
         'name': nm.XSD_UNSIGNED_BYTE,
         'datatype': datatypes.UnsignedByte,
         'python_type': int,
+        'to_python': str_to_int,
         'from_python': python_to_int,
         'base_type': nm.XSD_UNSIGNED_SHORT,
         'facets': [unsigned_byte_validator, Element(nm.XSD_MAX_INCLUSIVE, value='255')]
@@ -348,6 +359,7 @@ XSD_COMMON_BUILTIN_TYPES: tuple[dict[str, Any], ...] = (
         'name': nm.XSD_NON_POSITIVE_INTEGER,
         'datatype': datatypes.NonPositiveInteger,
         'python_type': int,
+        'to_python': str_to_int,
         'from_python': python_to_int,
         'base_type': nm.XSD_INTEGER,
         'facets': [non_positive_int_validator, Element(nm.XSD_MAX_INCLUSIVE, value='0')]
@@ -356,6 +368,7 @@ XSD_COMMON_BUILTIN_TYPES: tuple[dict[str, Any], ...] = (
         'name': nm.XSD_NEGATIVE_INTEGER,
         'datatype': datatypes.NegativeInteger,
         'python_type': int,
+        'to_python': str_to_int,
         'from_python': python_to_int,
         'base_type': nm.XSD_NON_POSITIVE_INTEGER,
         'facets': [negative_int_validator, Element(nm.XSD_MAX_INCLUSIVE, value='-1')]
